@@ -134,7 +134,10 @@ theorem slot_access_sites :
 
 /-- TIE 6: the statement compiler (compiler_stmt.go) as the emitter model `emitS`/`emitList` transcribes it: for each
 method, its decision structure (conditions, loops, gotos) with, in source order, the calls that emit code or compile a
-sub-statement — regenerated on every run; bookkeeping statements are not part of the skeleton.  A failing conjunct names
+sub-statement — regenerated on every run; bookkeeping statements are not part of the skeleton, and neither are the
+sub-trees guarded by conditions that belong to constructs outside the model (break/continue bookkeeping, function and
+lexical declarations, per-iteration bindings, the try / for-in/of unwinding of `return`, class constructors:
+`c01outsideFragment` in extract/c01.go), so that an edit there does not raise an alarm here.  A failing theorem names
 the method whose emission logic changed (then `emitS` and `corr:emit-statements-bytecode-exact` must follow). -/
 theorem stmt_skel_compileExpressionStatement : Gen.skel_compileExpressionStatement =
     "c.emitExpr(c.compileExpression(v.Expression),needResult);if(needResult){c.emit(saveResult);}" := rfl
@@ -143,25 +146,25 @@ theorem stmt_skel_compileEmptyStatement : Gen.skel_compileEmptyStatement =
 theorem stmt_skel_compileIfStatement : Gen.skel_compileIfStatement =
     "if(needResult){c.emit(clearResult);}if(test.constant()){if(ex!=nil){c.emitThrow(ex.val);return;}if(r.ToBoolean()){c.compileIfBody(v.Consequent,needResult);if(v.Alternate!=nil){c.compileIfBodyDummy(v.Alternate);}}else{c.compileIfBodyDummy(v.Consequent);if(v.Alternate!=nil){c.compileIfBody(v.Alternate,needResult);}else{if(needResult){c.emit(clearResult);}}}return;}test.emitGetter(true);c.emit(nil);c.compileIfBody(v.Consequent,needResult);if(v.Alternate!=nil){c.emit(nil);patch jneP(len(c.p.code)-jmp);c.compileIfBody(v.Alternate,needResult);patch jump(len(c.p.code)-jmp1);}else{if(needResult){c.emit(jump(2));patch jneP(len(c.p.code)-jmp);c.emit(clearResult);}else{patch jneP(len(c.p.code)-jmp);}}" := rfl
 theorem stmt_skel_compileIfBody : Gen.skel_compileIfBody =
-    "if(!c.scope.strict){if(ok&&!s.Function.Async&&!s.Function.Generator){c.compileFunction(s);if(needResult){c.emit(clearResult);}return;}}c.compileStatement(s,needResult);" := rfl
+    "c.compileStatement(s,needResult);" := rfl
 theorem stmt_skel_compileLabeledWhileStatement : Gen.skel_compileLabeledWhileStatement =
     "if(needResult){c.emit(clearResult);}set testTrue=false;if(expr.constant()){if(ex==nil){if(t.ToBoolean()){set testTrue=true;}else{c.compileStatementDummy(v.Body);goto end;}}else{c.emitThrow(ex.val);goto end;}}else{expr.emitGetter(true);c.emit(nil);}if(needResult){c.emit(clearResult);}c.compileStatement(v.Body,needResult);c.emit(jump(start-len(c.p.code)));if(!testTrue){patch jneP(len(c.p.code)-j);}end:" := rfl
 theorem stmt_skel_compileLabeledDoWhileStatement : Gen.skel_compileLabeledDoWhileStatement =
     "if(needResult){c.emit(clearResult);}c.compileStatement(v.Body,needResult);c.emitExpr(c.compileExpression(v.Test),true);c.emit(jeqP(start-len(c.p.code)));" := rfl
 theorem stmt_skel_compileLabeledForStatement : Gen.skel_compileLabeledForStatement =
-    "typeswitch{case(*ast.ForLoopInitializerLexicalDecl){c.compileForHeadLexDecl(&init.LexicalDeclaration,needResult);}case(*ast.ForLoopInitializerVarDeclList){range(init.List){c.compileVarBinding(expr);}}case(*ast.ForLoopInitializerExpression){c.compileExpression(init.Expression).emitGetter(false);}}if(needResult){c.emit(clearResult);}if(enterIterBlock!=nil){c.emit(jump(1));}set testConst=false;if(v.Test!=nil){if(expr.constant()){if(ex==nil){if(r.ToBoolean()){set testConst=true;}else{c.enterDummyMode();c.compileStatement(v.Body,false);if(v.Update!=nil){c.compileExpression(v.Update).emitGetter(false);}leave();goto end;}}else{c.emitThrow(ex.val);goto end;}}else{expr.emitGetter(true);c.emit(nil);}}if(needResult){c.emit(clearResult);}c.compileStatement(v.Body,needResult);if(enterIterBlock!=nil){c.emit(jump(1));}if(v.Update!=nil){c.compileExpression(v.Update).emitGetter(false);}if(enterIterBlock!=nil){if(c.scope.needStash||c.scope.isDynamic()){patch <*ast.CompositeLit>;patch <*ast.CompositeLit>;}}c.emit(jump(start-len(c.p.code)));if(v.Test!=nil){if(!testConst){patch jneP(len(c.p.code)-j);}}end:" := rfl
+    "typeswitch{case(*ast.ForLoopInitializerExpression){c.compileExpression(init.Expression).emitGetter(false);}}if(needResult){c.emit(clearResult);}set testConst=false;if(v.Test!=nil){if(expr.constant()){if(ex==nil){if(r.ToBoolean()){set testConst=true;}else{c.enterDummyMode();c.compileStatement(v.Body,false);if(v.Update!=nil){c.compileExpression(v.Update).emitGetter(false);}leave();goto end;}}else{c.emitThrow(ex.val);goto end;}}else{expr.emitGetter(true);c.emit(nil);}}if(needResult){c.emit(clearResult);}c.compileStatement(v.Body,needResult);if(v.Update!=nil){c.compileExpression(v.Update).emitGetter(false);}c.emit(jump(start-len(c.p.code)));if(v.Test!=nil){if(!testConst){patch jneP(len(c.p.code)-j);}}end:" := rfl
 theorem stmt_skel_compileReturnStatement : Gen.skel_compileReturnStatement =
-    "if(s!=nil&&s.funcType==funcClsInit){c.throwSyntaxError(int(v.Return)-1,\"Illegal return statement\");}if(v.Argument!=nil){c.emitExpr(c.compileExpression(v.Argument),true);}else{c.emit(loadUndef);}for{switch{case(blockTry){c.emit(saveResult,<*ast.CompositeLit>,loadResult);}case(blockLoopEnum){c.emit(enumPopClose);}}}c.emit(ret);" := rfl
+    "if(v.Argument!=nil){c.emitExpr(c.compileExpression(v.Argument),true);}else{c.emit(loadUndef);}c.emit(ret);" := rfl
 theorem stmt_skel_compileThrowStatement : Gen.skel_compileThrowStatement =
     "c.compileExpression(v.Argument).emitGetter(true);c.emit(throw);" := rfl
 theorem stmt_skel_emitVarAssign : Gen.skel_emitVarAssign =
     "if(init!=nil){if(noDyn){c.emitNamedOrConst(init,name);b.emitInitP();}else{c.emitVarRef(name,offset,b);c.emitNamedOrConst(init,name);c.emit(initValueP);}}" := rfl
 theorem stmt_skel_compileStatements : Gen.skel_compileStatements =
-    "if(blk!=nil){set needResult=blk.needResult;}if(needResult){c.compileStatementsNeedResult(list,lastProducingIdx);return;}range(list){if(ok){continue;}c.compileStatement(st,false);}" := rfl
+    "if(needResult){c.compileStatementsNeedResult(list,lastProducingIdx);return;}range(list){c.compileStatement(st,false);}" := rfl
 theorem stmt_skel_compileStatementsNeedResult : Gen.skel_compileStatementsNeedResult =
-    "if(lastProducingIdx>=0){range(<*ast.SliceExpr>){if(ok){continue;}c.compileStatement(st,containsBranch(st));}c.compileStatement(list[lastProducingIdx],true);}range(<*ast.SliceExpr>){if(ok){continue;}c.compileStatement(st,false);if(leave==nil){if(ok){c.enterDummyMode();}}}" := rfl
+    "if(lastProducingIdx>=0){range(<*ast.SliceExpr>){c.compileStatement(st,containsBranch(st));}c.compileStatement(list[lastProducingIdx],true);}range(<*ast.SliceExpr>){c.compileStatement(st,false);}" := rfl
 theorem stmt_skel_scanStatements : Gen.skel_scanStatements =
-    "set lastProducingIdx=-1;range(list){if(bs!=nil){if(blk!=nil){set breakingBlock=blk;}break;}if(!c.isEmptyResult(st)){set lastProducingIdx=i;}}return;" := rfl
+    "set lastProducingIdx=-1;range(list){if(!c.isEmptyResult(st)){set lastProducingIdx=i;}}return;" := rfl
 
 /-- TIE 6b: which statements have an empty result (`isEmptyResult`, compiler_stmt.go:881): the case list behind
 `Stmt.emptyResult`, and "everything else produces a value" (no default clause, final `return false`). -/
